@@ -53,7 +53,7 @@ func init() {
 	verifComponents["growcap"] = func(args []string) func(op []string) string {
 		return func(op []string) string {
 			if op[0] != "gb" {
-				return "ok"
+				return ""
 			}
 			cur, off, n := int(vi(op[1])), uint64(vi(op[2])), int(vi(op[3]))
 			b := NewBuffer(64, "verif")
